@@ -145,6 +145,24 @@ def clause1_fanout(ctx, P, cg):
     ctx.ob("C11.1 R-LOOP", nf, "walks-every-slot", okl,
            "notify_fetchers leaves its loop before slot fetch_table_size-1 (e.g. at the first empty slot - unfetch and disconnect "
            "leave holes): subscribers behind the exit silently miss the event")
+    # ... and every occupied slot is notified: between the loop test and the notification nothing is tested but 'slot not empty'
+    # (whose fetch it is - the element owner's own, a slow peer's - is no reason to pass it over: the replica of that subscriber
+    # silently goes stale)
+    extra = None
+    nn = 0
+    for c in nf.calls("notify_fetching_peer"):
+        nn += 1
+        for (atom, pol) in Q.guards_of(P, nf, c.block):
+            t = atom[1] if atom[0] == "truth" else atom[2]
+            slot = Q.mentions(t, lambda x: x[0] == "load" and Q.mentions(x[1], lambda y: y[0] == "field" and y[3] == "fetcher_table"))
+            if atom[0] == "cmp" and atom[3] == ("null",) and slot and not Q.mentions(t, lambda x: x[0] == "field" and x[3] != "fetcher_table"):
+                continue
+            if atom[0] == "cmp" and atom[1] in ("ult", "ne") and Q.is_field_load(atom[3], "struct.element", "fetch_table_size") is not None:
+                continue
+            extra = extra or (atom, pol)
+    ctx.ob("C11.1 R-LOOP", nf, "every-occupied-slot-is-notified", extra is None and nn >= 1,
+           "notify_fetchers() passes an occupied slot over on the condition %s: that subscriber misses the event and its replica goes "
+           "stale" % (fmt_atom(*extra) if extra else ""))
     if n < 3:
         raise AnalysisBroken("fan-out loops with varying recipient: found %d, expected >= 3" % n)
     ctx.floor("C11.1 R-LOOP", 3)
